@@ -1,12 +1,13 @@
 """C19 -- UML class generation is complete, namespace-faithful and self-consistent."""
 import collections
+import contextlib
 import glob
 import json
 import os
 import random
 import re
 
-from .. import kj, umlsynth as us
+from .. import kj, umlblob as ub, umlsynth as us, vppsynth as vs
 from ..check import VERIF, unjson
 
 from kojen import LanguageCPP, LanguageCsharp  # noqa: E402
@@ -101,7 +102,7 @@ def expected_paths(cd, nsf, lang="cpp"):
     return exp, clash
 
 
-def observe(ctx, cd, label, nsf, dclspc, edits, compile_all, touch=()):
+def observe(ctx, cd, label, nsf, dclspc, edits, compile_all, touch=(), project=None):
     """generate for real, then check the property on the generated tree with model-free oracles; returns list of failures"""
     fails = []
 
@@ -123,7 +124,13 @@ def observe(ctx, cd, label, nsf, dclspc, edits, compile_all, touch=()):
         ctx.count("acyclic=%s files_hyp=%s" % (acyclic, hyp[0]))
     with kj.scratch("kjv-uml-") as out:
         try:
-            ret = us.generate(cd, out, "cpp", nsf, dclspc)
+            if project is not None:      # the REAL public entry point on a synthesised project file
+                from kojen import Generate
+                with kj.quiet():
+                    ret = Generate.UML(out, project[0], project[1].decode("utf-8"), dclspc, "a", "g", "b", nsf, "")
+                ctx.count("generated_through_Generate.UML_from_a_project_file")
+            else:
+                ret = us.generate(cd, out, "cpp", nsf, dclspc)
         except RecursionError:
             if acyclic:
                 fail("RecursionError although the diagram is acyclic and closed", "uml:%s:acyclic-no-return" % label, finding_class="uml:acyclic-no-return")
@@ -247,6 +254,122 @@ def csharp(ctx, cd, label, nsf, edits):
     return fails
 
 
+# ---------------------------------------------------------------- the input adaptor (Model/UmlBlob.v)
+
+BLOB_ALPHA = ["{", "}", ";", "=", ":", "<", ">", "(", ")", ",", '"', "'", " ", "\\r\\n\\t", "\\t", "a", "Child", "child_0", "type", "name", "x1", "Operation",
+              "b'", "stereotypes", "abstract", "visibility=71", "<a:b>", "\n", "é"]
+
+
+def adaptor_ties(ctx):
+    """function level: ParseBLOB_Recursive and the rendering helpers vs the model; the shipped diagrams row for row"""
+    km, rng = ctx.km, ctx.rng
+    db = ub.read_rows(vs.BLOB_XML)
+    rows = db[2] if not ctx.quick else [m for j, m in enumerate(db[2]) if j % 4 == 0 or m[1] in (b"Class", b"Association", b"Package")]
+    for m in rows:
+        text = str(m[4])
+        if ub.real_parse(text) != km.call("ub_parse", text.encode("utf-8")):
+            ctx.tie_broken("correspondence vppfs.ParseBLOB_Recursive vs UmlBlob.parse_blob on a shipped blob", {"id": m[0]})
+        ctx.count("adaptor_shipped_blobs_parsed")
+    for i in range(ctx.budget(300, 6000)):
+        text = "".join(rng.choice(BLOB_ALPHA) for _ in range(rng.randint(0, 24)))
+        if ub.real_parse(text) != km.call("ub_parse", text.encode("utf-8")):
+            ctx.tie_broken("correspondence vppfs.ParseBLOB_Recursive vs UmlBlob.parse_blob", {"text": text})
+        ctx.count("adaptor_random_texts_parsed")
+    lang = LanguageCPP.LanguageCPP()
+    anycls = next(iter(us.load("TestClassDiagram").classes.values()))
+    for i in range(ctx.budget(300, 6000)):
+        ty = rng.choice(["int", "XA::CB", "", "bool"])
+        mod = rng.choice(["", "*", "&", "[]", " [] ", "*&"])
+        mu = rng.choice(["", "*", "0..1", "1", "0", "4", "2..5", "1..*", "0..*", "a..b", "x", " 7 ", "+3", "-2", "3..", "..", "10", "07", "1..4..9"])
+        nm = rng.choice(["_p", "m_x", ""])
+        df = rng.choice(["", "0", "nullptr, nullptr", " 1 "])
+        real = [lang.GetTypeAndNameFromMultiplicityAndModifier(anycls, ty, mod, mu, nm), lang.GetDefaultFormatFromMultiplicityAndModifier(anycls, mod, mu, df),
+                anycls.GetContainerMultiplicityType(mu)]
+        model = [km.call("ub_type_and_name", ty, mod, mu, nm), km.call("ub_default", mod, mu, df), km.call("ub_container", mu)]
+        if [[x.encode() for x in real[0]], real[1].encode(), real[2].encode()] != model:
+            ctx.tie_broken("correspondence LanguageCPP rendering helpers vs UmlBlob.type_and_name / default_format / container_type",
+                           {"type": ty, "modifier": mod, "multiplicity": mu, "name": nm, "default": df, "real": real, "model": model})
+        ctx.count("adaptor_rendering_cases")
+    for name in (b"TestClassDiagram", b"ProtocolStack"):
+        real, cd, err = ub.real_load(vs.BLOB_XML, name)
+        if real != km.call("ub_load", vs.db_v(db), name):
+            ctx.tie_broken("correspondence vppclassdiagram.ExtractClassDiagram vs UmlBlob.load_cdiagram on the shipped project", {"diagram": name, "error": err})
+        elif cd is not None and km.call("ub_adaptor", vs.db_v(db), name) != [ub.abstract_view(cd)]:
+            ctx.tie_broken("UmlBlob.adaptor differs from the abstract diagram the harness computes from kojen's objects", {"diagram": name})
+        ctx.case(("adaptor-shipped", name))
+    # malformed projects: a synthesised project with damaged blobs; exceptions must agree too
+    for i in range(ctx.budget(40, 600)):
+        cd = us.load(us.DIAGRAMS[i % 2])
+        r2 = random.Random(rng.randint(0, 1 << 30))
+        try:
+            us.mutate(r2, cd, r2.randint(0, 2))
+            dbm, name = ub.project_rows(r2, cd)
+        except Exception:  # noqa
+            ctx.count("adaptor_malformed_skipped")
+            continue
+        ms = list(dbm[2])
+        for _ in range(r2.randint(1, 3)):
+            j = r2.randrange(len(ms))
+            blob = bytearray(ms[j][4])
+            k = r2.randrange(len(blob) + 1)
+            act = r2.choice(["del", "ins", "cut", "swap"])
+            if act == "del" and blob:
+                del blob[min(k, len(blob) - 1)]
+            elif act == "ins":
+                blob[k:k] = r2.choice([b"{", b"}", b";", b"=", b":", b"<", b">", b"'", b'"', b"child=", b"\xc3\xa9"])
+            elif act == "cut":
+                blob = blob[:k]
+            elif blob:
+                blob[min(k, len(blob) - 1)] = r2.choice(b"{};=:<>")
+            ms[j] = ms[j][:4] + (bytes(blob),)
+        dbm = (dbm[0], dbm[1], ms)
+        with kj.scratch("kjv-umlbad-") as d:
+            path = ub.project_path(d)
+            vs.write_project(path, dbm)
+            try:
+                real, _cd, err = ub.real_load(path, name)
+            except ub.NotAString:
+                real, err = [], "a dict where a text belongs"
+        model = km.call("ub_load", vs.db_v(dbm), name)
+        if real != model:
+            ctx.tie_broken("correspondence ExtractClassDiagram vs UmlBlob.load_cdiagram on a damaged project", {"seed": i, "error": err, "model_returns": bool(model)})
+        ctx.case(("adaptor-malformed", i), nontrivial=bool(real))
+        ctx.count("adaptor_malformed_%s" % ("loads" if real else "rejected"))
+
+
+def adaptor_case(ctx, stack, cd, seed, meta=None):
+    """write cd (normalised in place) as a project file through the assumed writer, read it back with the real adaptor and with
+    the model; returns (path, diagram name, objects read back) or None when the object graph has no project-file form"""
+    rng = random.Random(seed ^ 0x5EED)
+    try:
+        db, name = ub.project_rows(rng, cd)
+    except ub.Unencodable as e:
+        ctx.count("adaptor_unencodable:" + str(e).split(" ")[0])
+        return None
+    try:
+        want = ub.modid(ub.rdiagram_view(cd), cd)
+    except ub.NotAString:
+        return None
+    d = stack.enter_context(kj.scratch("kjv-umlproj-"))
+    path = ub.project_path(d)
+    vs.write_project(path, db)
+    real, cd2, err = ub.real_load(path, name)
+    model = ctx.km.call("ub_load", vs.db_v(db), name)
+    info = dict(meta or {}, via_project=seed, error=err)
+    if real != model:
+        ctx.tie_broken("correspondence ExtractClassDiagram vs UmlBlob.load_cdiagram on a synthesised project", info)
+    if not real:
+        ctx.violation("the adaptor rejects a synthesised project file: %s" % err, dict(info, finding_key="uml-adaptor:load-failed", finding_class="uml-adaptor"))
+        return None
+    if ub.modid(real[0], cd) != want:
+        ctx.violation("the class diagram read back from the synthesised project differs from the one written",
+                      dict(info, finding_key="uml-adaptor:roundtrip", finding_class="uml-adaptor"))
+    if ctx.km.call("ub_adaptor", vs.db_v(db), name) != [ub.abstract_view(cd2)]:
+        ctx.tie_broken("UmlBlob.adaptor differs from the abstract diagram of the objects read back", info)
+    ctx.count("adaptor_synthesised_projects")
+    return path, name, cd2
+
+
 def directed_probes(ctx):
     """shapes the random edits reach rarely, built from the shipped TestClassDiagram with umlsynth's mutators on every run:
     each association removed in turn, association ends reordered (to-one ends last), an explicit constructor of the arity
@@ -331,6 +454,8 @@ def run(ctx):
         if not replay(ctx, data):
             ctx.violation("corpus case %s fails" % os.path.basename(p), data)
     derived_project_probe(ctx)
+    if ctx.km is not None:
+        adaptor_ties(ctx)
     directed_probes(ctx)
     n = ctx.budget(60, 200)
     cases = [(label, 0, 0) for label in us.DIAGRAMS] + [("TestClassDiagram", -1, 0)]
@@ -342,11 +467,21 @@ def run(ctx):
             edits = ["realisation-cycle"] if us.add_cycle(cd) else []
         nsf = (idx % 2 == 0)
         dclspc = "" if idx % 3 else "DLL_API"
-        if ctx.km is not None:
-            function_level(ctx, cd, label)
-        fails, nontrivial = observe(ctx, cd, label, nsf, dclspc, edits, compile_all=(nedits == 0 or not ctx.quick))
-        if idx % 4 == 0 or nedits == 0:
-            fails += csharp(ctx, cd, label, nsf, edits)
+        with contextlib.ExitStack() as stack:
+            project = None
+            if ctx.km is not None and seed != -1 and (idx % 3 == 1 or nedits == 0):
+                # a share of the cases goes through a synthesised project file and the real adaptor / public entry point
+                project = adaptor_case(ctx, stack, cd, seed, {"label": label, "mut_seed": seed, "nedits": nedits})
+                if project is not None:
+                    cd = project[2]
+            if ctx.km is not None:
+                function_level(ctx, cd, label)
+            fails, nontrivial = observe(ctx, cd, label, nsf, dclspc, edits, compile_all=(nedits == 0 or not ctx.quick), project=project)
+            if idx % 4 == 0 or nedits == 0:
+                fails += csharp(ctx, cd, label, nsf, edits)
+            for f in fails:
+                if project is not None:
+                    f["via_project"] = seed
         ctx.case(("uml", label, seed, nedits, nsf, dclspc), nontrivial=nontrivial)
         ctx.count("diagram_%s_edits_%d" % (label, nedits))
         for e in edits:
@@ -372,7 +507,16 @@ def replay(ctx, data):
     if data.get("probe"):
         us.apply_probe(cd, data["probe"])
         edits = ["probe:" + data["probe"]]
-    if data.get("lang") == "cs":
-        return not csharp(ctx, cd, data["label"], data["nsf"], edits)
-    fails, _ = observe(ctx, cd, data["label"], data["nsf"], data.get("dclspc", ""), edits, True)
-    return not [f for f in fails if f["finding_key"] == data["finding_key"]]
+    with contextlib.ExitStack() as stack:
+        project = None
+        if "via_project" in data and ctx.km is not None:
+            before = len(ctx.violations) + len(ctx.known) + len(ctx.broken)
+            project = adaptor_case(ctx, stack, cd, data["via_project"])
+            if str(data.get("finding_key", "")).startswith("uml-adaptor"):
+                return len(ctx.violations) + len(ctx.known) + len(ctx.broken) == before
+            if project is not None:
+                cd = project[2]
+        if data.get("lang") == "cs":
+            return not csharp(ctx, cd, data["label"], data["nsf"], edits)
+        fails, _ = observe(ctx, cd, data["label"], data["nsf"], data.get("dclspc", ""), edits, True, project=project)
+        return not [f for f in fails if f["finding_key"] == data["finding_key"]]
